@@ -1869,3 +1869,19 @@ Lemma runner_zlb_example :
   (let '(c', o, d, ret) := tick ex_conf c 200 in o = [] /\ d = false /\ ret = Some 250 /\ runner_next ret 200 = 250) /\
   (let '(c', o, d, ret) := tick ex_conf c 250 in map k_nr o = [1] /\ c_zlb c' = None).
 Proof. vm_compute. splits; reflexivity. Qed.
+
+(* ================= one control connection = one tunnel, whatever the network does to the SCCRQ ================= *)
+Lemma conn_opens_seen evs : forall st, st <> CNone -> conn_opens true st evs = 0%nat.
+Proof.
+  induction evs as [|e r IH]; intros st H; simpl; [reflexivity|].
+  destruct e, st; simpl; try congruence; apply IH; discriminate.
+Qed.
+
+Lemma sccrq_once evs : (conn_opens true CNone evs <= 1)%nat.
+Proof.
+  induction evs as [|e r IH]; simpl; [lia|].
+  destruct e; simpl; auto. rewrite conn_opens_seen by discriminate. lia.
+Qed.
+
+Lemma sccrq_twice_without_linger : conn_opens false CNone [CSccrq; COther; CTeardown; CSccrq] = 2%nat.
+Proof. reflexivity. Qed.
